@@ -301,6 +301,11 @@ def directed(recvs, by_name, k):
                dict(post=[False, "cm_id"]), dict(post=[True, "ca_ok"]), dict(post=[True, "ca_fail"]), dict(auk=True),
                dict(from_word=True), dict(from_none=True), dict(from_word=True, from_none=True, cdefault="explicit", auk=True)):
         add_struct(sink(), **kw)
+    # effective names that are path keywords (`#[my_macro(crate = "..")]` is a common idiom); syn accepts them as item names
+    add_struct([F("krate", L("String"), rename="crate"), F("this", O(L("u8")), rename="self"), F("parent", O(L("u8")), rename="super"),
+                F("own", L("u8"), rename="Self", multiple=True), F("plain", O(L("bool")))])
+    add_enum([{"ident": "Krate", "style": "unit", "rename": "crate"}, {"ident": "Own", "style": "newtype", "rename": "self", "fields": [F("0", L("u8"))]},
+              {"ident": "Upper", "style": "struct", "rename": "super", "fields": [F("n", L("u8"), rename="crate")]}])
     # newtype receivers under every container-level post-transform (the generated from_meta of a newtype has its own shape)
     for post in (None, [False, "cm_id"], [True, "ca_ok"], [True, "ca_fail"]):
         for inner in (L("u8"), O(L("String")), Rv(deep)):
